@@ -1,0 +1,8 @@
+//! Verification hooks.  Compiled only with the `verif-hooks` cargo feature,
+//! which is off by default; nothing in this module is reachable otherwise.
+//!
+//! The hooks expose crate-private entry points and a few observation points to
+//! the external verification harness.  They add code only; no existing
+//! behaviour is changed when the feature is enabled.
+
+#![allow(missing_docs)]
